@@ -26,14 +26,14 @@ static int builtin_index(const char *p, size_t *namelen)
 static int ref_expand(const char *s, ref_t *r);
 /* the word grammar the built-ins split their argument with (as in h_tokens.c / DESIGN A.8): whitespace-separated,
  * a word that opens with a quote runs to the matching quote, a backslash makes a following quote literal */
-static int ref_words(const char *s, char w[3][64])
+static int ref_words(const char *s, char w[3][1200])
 {
     size_t i = 0; int n = 0;
     while (s[i] && isspace((unsigned char) s[i])) i++;
     while (s[i]) {
         char q = 0; size_t o = 0;
         if (s[i] == '"' || s[i] == '\'') q = s[i++];
-        while (s[i] && (q ? s[i] != q : !isspace((unsigned char) s[i]))) { if (s[i] == '\\' && (s[i + 1] == '"' || s[i + 1] == '\'')) i++; if (n < 3 && o < 63) w[n][o++] = s[i]; i++; }
+        while (s[i] && (q ? s[i] != q : !isspace((unsigned char) s[i]))) { if (s[i] == '\\' && (s[i + 1] == '"' || s[i + 1] == '\'')) i++; if (n < 3 && o < 1199) w[n][o++] = s[i]; i++; }
         if (s[i] == '"' || s[i] == '\'') i++;
         if (n < 3) w[n][o] = 0;
         n++;
@@ -50,8 +50,8 @@ static int ref_builtin(int k, const char *arg, ref_t *r)
     switch (k) {
     case 0: r_put(r, "verif-1.0", 9); break;
     case 1: r_put(r, "1.0", 3); break;
-    case 3: { /* random: one word -> that word; several words -> outside the stateless oracle */ char w[3][64]; int n = ref_words(a->out, w); if (n == 1) r_put(r, w[0], strlen(w[0])); else if (n > 1) r->foreign_percent = 1; break; }
-    case 4: { char w[3][64]; int n = ref_words(a->out, w);
+    case 3: { /* random: one word -> that word; several words -> outside the stateless oracle */ char w[3][1200]; int n = ref_words(a->out, w); if (n == 1) r_put(r, w[0], strlen(w[0])); else if (n > 1) r->foreign_percent = 1; break; }
+    case 4: { char w[3][1200]; int n = ref_words(a->out, w);
               if (n >= 1 && n <= 2) { const char *v = m_store_get(w[0]); if (v) r_put(r, v, strlen(v)); else if (n == 2) r_put(r, w[1], strlen(w[1])); }
               break; }                     /* more than two words: syntax error, nothing is substituted */
     case 6: { char w[3][64 + 300]; (void) w;      /* dirscan: names of the regular files, each followed by a blank; "" for an empty directory */
@@ -178,9 +178,9 @@ static void a_case(uint64_t idx, void *ctx)
 }
 
 /* ------------------------------------------------------------------ (B) %put / %get histories (E1) */
-static const char *VOPS[] = { "%put(k v1)", "%put(k v2)", "%put(j v1)", "x%get(k)y", "%get(j)", "%get(k dflt)", "%put(k)", "%get(%get(j))", "%put(a %get(k))", "%put(j '')", "p%get(j)q" };
+static const char *VOPS[] = { "%put(k v1)", "%put(k v2)", "%put(j v1)", "x%get(k)y", "%get(j)", "%get(k dflt)", "%put(k)", "%get(%get(j))", "%put(a %get(k))", "%put(j '')", "p%get(j)q", "%put(K v3)", "u%get(K)w" };      /* K and k are different variables */
 #define NVOPS ((int) (sizeof VOPS / sizeof VOPS[0]))
-typedef struct { char k[8], j[8], a[8]; int hk, hj, ha; int init; } vs_t;      /* h*: the variable exists (its value may be empty) */
+typedef struct { char k[8], j[8], a[8], K[8]; int hk, hj, ha, hK; int init; } vs_t;      /* h*: the variable exists (its value may be empty) */
 static vs_t *g_vs;
 static const char *m_store_get(const char *key)
 {
@@ -188,6 +188,7 @@ static const char *m_store_get(const char *key)
     if (!strcmp(key, "k")) return g_vs->hk ? g_vs->k : NULL;
     if (!strcmp(key, "j")) return g_vs->hj ? g_vs->j : NULL;
     if (!strcmp(key, "a")) return g_vs->ha ? g_vs->a : NULL;
+    if (!strcmp(key, "K")) return g_vs->hK ? g_vs->K : NULL;
     return NULL;
 }
 static void v_name(int i, char *b, size_t n) { snprintf(b, n, "expand \"%s\"", VOPS[i]); }
@@ -203,7 +204,7 @@ static void v_check_store(vs_t *s, const char *shape)
         g_vs = s; const char *e = m_store_get((char *) v->var); g_vs = NULL;
         if (!e || strcmp(e, (char *) v->value)) { FAIL("spifconf_put_var", "model:store-content", shape, "store has %s=%s, model %s", (char *) v->var, (char *) v->value, e ? e : "(absent)"); return; }
     }
-    int want = s->hk + s->hj + s->ha;
+    int want = s->hk + s->hj + s->ha + s->hK;
     if (cnt != want) FAIL("spifconf_put_var", "model:store-size", shape, "store holds %d variables, model %d", cnt, want);
 }
 static void v_apply(void *vs, int op)
@@ -218,7 +219,7 @@ static void v_apply(void *vs, int op)
         char key[8] = "", val[60] = ""; ok = 1; expect[0] = 0;
         if (op == 8) { const char *kv = m_store_get("k"); if (kv && *kv) { snprintf(s->a, sizeof s->a, "%s", kv); s->ha = 1; } /* %put(a <value of k>): malformed (one word) when k is unset or empty */ }
         else if (op == 9) { s->j[0] = 0; s->hj = 1; }                          /* %put(j ''): the variable exists with an empty value */
-        else if (sscanf(VOPS[op] + 5, "%7[^ )] %50[^)]", key, val) == 2) { if (!strcmp(key, "k")) { snprintf(s->k, 8, "%s", val); s->hk = 1; } else { snprintf(s->j, 8, "%s", val); s->hj = 1; } }
+        else if (sscanf(VOPS[op] + 5, "%7[^ )] %50[^)]", key, val) == 2) { if (!strcmp(key, "k")) { snprintf(s->k, 8, "%s", val); s->hk = 1; } else if (!strcmp(key, "K")) { snprintf(s->K, 8, "%s", val); s->hK = 1; } else { snprintf(s->j, 8, "%s", val); s->hj = 1; } }
     } else { ok = ref_expand(VOPS[op], &R); R.out[R.n] = 0; snprintf(expect, sizeof expect, "%s", R.out); }
     char *k1; char *r = expand_in(VOPS[op], CONFIG_BUFF, 0xA5, &k1);
     g_vs = NULL;
@@ -227,7 +228,7 @@ static void v_apply(void *vs, int op)
     free(k1);
     v_check_store(s, shape);
 }
-static void v_canon(void *vs, char *b, size_t n) { vs_t *s = vs; snprintf(b, n, "k=%s%s j=%s%s a=%s%s", s->hk ? "" : "<unset>", s->k, s->hj ? "" : "<unset>", s->j, s->ha ? "" : "<unset>", s->a); }
+static void v_canon(void *vs, char *b, size_t n) { vs_t *s = vs; snprintf(b, n, "k=%s%s j=%s%s a=%s%s K=%s%s", s->hk ? "" : "<unset>", s->k, s->hj ? "" : "<unset>", s->j, s->ha ? "" : "<unset>", s->a, s->hK ? "" : "<unset>", s->K); }
 static void v_teardown(void *vs) { spifconf_free_subsystem(); free(vs); }
 
 /* ------------------------------------------------------------------ (C) the length limit */
@@ -255,6 +256,27 @@ static void l_case(uint64_t idx, void *ctx)
     mc_nontrivial();
 }
 
+/* ---- parentheses nested d deep inside a call's arguments, d around 127/255/256/512 (the depth counter of the argument scanner) */
+static const int PD[] = { 1, 100, 126, 127, 128, 254, 255, 256, 257, 300, 511, 512, 513 };
+#define NPD ((int) (sizeof PD / sizeof PD[0]))
+static void pd_desc(uint64_t idx, void *ctx, char *b, size_t n) { (void) ctx; snprintf(b, n, "spifconf_shell_expand(\"x%%get(zz %d x '(' %s %d x ')')y\")", PD[idx / 2], idx % 2 ? "$V" : "a", PD[idx / 2]); }
+static void pd_case(uint64_t idx, void *ctx)
+{
+    int d = PD[idx / 2]; (void) ctx;
+    char *in = malloc(CONFIG_BUFF); size_t o = (size_t) sprintf(in, "x%%get(zz ");
+    memset(in + o, '(', (size_t) d); o += (size_t) d; o += (size_t) sprintf(in + o, "%s", idx % 2 ? "$V" : "a"); memset(in + o, ')', (size_t) d); o += (size_t) d; o += (size_t) sprintf(in + o, ")y");
+    const char *shape = d < 255 ? "nesting below 255" : "nesting 255 or deeper";
+    mc_set_shape(shape);
+    g_home = "/h";
+    static ref_t R; memset(&R, 0, sizeof(int) * 2); R.n = 0;
+    g_env_on = 1; int ok = ref_expand(in, &R); g_env_on = 0; R.out[R.n] = 0;
+    char *k1; char *r = expand_in(in, CONFIG_BUFF, 0xA5, &k1);
+    if (!r) FAIL("spifconf_shell_expand", "model:refused", shape, "returned NULL");
+    else if (ok && strcmp(r, R.out)) { size_t k = 0; while (r[k] && r[k] == R.out[k]) k++; FAIL("spifconf_shell_expand", "model:value", shape, "result differs from the expansion rules at offset %zu (result %zu characters, expected %zu)", k, strlen(r), R.n); }
+    free(k1); free(in);
+    mc_nontrivial();
+    mc_outcome((uint64_t) d);
+}
 int main(int argc, char **argv)
 {
     mc_init("C10", argc, argv);
@@ -274,6 +296,7 @@ int main(int argc, char **argv)
         spifconf_init_subsystem();
         for (g_n = 0; g_n <= N; g_n++) if (!mc_e2_level("expand", g_n, mc_words_of_len(NFRAG, g_n) * 3, a_case, a_desc, NULL)) break;
         mc_e2_level("limit", 1, (uint64_t) NLFRAG * 14 * 2, l_case, l_desc, NULL);
+        mc_e2_level("paren_depth", 513, (uint64_t) NPD * 2, pd_case, pd_desc, NULL);
         spifconf_free_subsystem();
     }
     if (!mc_arg("only", NULL) || !strcmp(mc_arg("only", ""), "b")) {
